@@ -203,7 +203,7 @@ pub struct MutCase {
     pub b: u32,
 }
 pub struct Mutations;
-pub const MUT_NAMES: [&str; 21] = ["strict_prefix", "bad_magic", "bad_version", "count_mismatch", "count_extreme", "unsorted_transitions", "duplicate_transition", "type_index_out_of_bounds", "abbr_index_out_of_bounds", "abbr_unterminated", "dst_byte_2", "forbidden_isut_without_isstd", "footer_no_leading_newline", "footer_no_trailing_newline", "footer_nul", "footer_colon", "footer_malformed_rule", "utoff_i32_min", "trailing_byte_after_v1", "v1_block_magic", "v1_block_without_types"];
+pub const MUT_NAMES: [&str; 23] = ["strict_prefix", "bad_magic", "bad_version", "count_mismatch", "count_extreme", "unsorted_transitions", "duplicate_transition", "type_index_out_of_bounds", "abbr_index_out_of_bounds", "abbr_unterminated", "dst_byte_2", "forbidden_isut_without_isstd", "footer_no_leading_newline", "footer_no_trailing_newline", "footer_nul", "footer_colon", "footer_malformed_rule", "utoff_i32_min", "trailing_byte_after_v1", "v1_block_magic", "v1_block_without_types", "footer_name_mismatch", "footer_unicode_space_padding"];
 
 /// byte layout of the governing data block (the 64-bit block of v2+, the only block of v1)
 struct Layout {
@@ -324,6 +324,38 @@ pub fn mutate(f: &ZoneFile, kind: u8, a: u32, b: u32) -> Option<Vec<u8>> {
         17 => { let p = l.types() + (a as usize % typecnt) * 6; bytes[p..p + 4].copy_from_slice(&i32::MIN.to_be_bytes()); }
         18 => { if !v1 { return None; } bytes.push(a as u8); }
         19 => { if v1 { return None; } bytes[a as usize % 4] ^= 0x20; }
+        21 => {
+            // the footer names the last transition's type with one character changed (the last one):
+            // rule and last transition then disagree
+            if v1 { return None; }
+            let rule = f.model.footer.as_ref()?;
+            let last = f.model.transitions.last()?;
+            let name = f.model.types[last.1].abbr.clone();
+            if !name.bytes().all(|c| c.is_ascii_alphabetic()) { return None; }
+            let txt = rule.to_tz_string(f.explicit_footer);
+            if txt.matches(name.as_str()).count() != 1 { return None; }
+            let mut other = name.clone().into_bytes();
+            let k = other.len() - 1;
+            other[k] = if other[k] == b'X' { b'Y' } else { b'X' };
+            let other = String::from_utf8(other).ok()?;
+            if txt.contains(other.as_str()) { return None; }
+            let fo = l.footer();
+            bytes.truncate(fo);
+            bytes.push(b'\n');
+            bytes.extend(txt.replace(name.as_str(), other.as_str()).bytes());
+            bytes.push(b'\n');
+        }
+        22 => {
+            // a white-space character that is not ASCII white space (or a vertical tab) inside the newlines
+            if v1 { return None; }
+            let rule = f.model.footer.as_ref().map(|r| r.to_tz_string(f.explicit_footer)).unwrap_or_default();
+            let pad = ["\u{a0}", "\u{2003}", "\u{85}", "\u{b}", "\u{3000}", "\u{2028}"][a as usize % 6];
+            let fo = l.footer();
+            bytes.truncate(fo);
+            bytes.push(b'\n');
+            if b % 2 == 0 { bytes.extend(pad.bytes()); bytes.extend(rule.bytes()); } else { bytes.extend(rule.bytes()); bytes.extend(pad.bytes()); }
+            bytes.push(b'\n');
+        }
         _ => {
             // the 32-bit block of a v2+ file replaced by an empty one whose header says so consistently:
             // no types (and / or no designation bytes) is not a legal header, even for the block that is skipped
@@ -349,7 +381,7 @@ impl SubCheck for Mutations {
         "case = (valid written file, mutation kind, two selectors): one defect is introduced by construction (truncation, bad magic/version, a count that disagrees with the data or is extreme, unsorted/duplicate transitions, type or abbreviation index out of bounds, unterminated abbreviation, dst byte 2, forbidden indicator pair, footer without newlines / with NUL / with ':' / with a malformed rule, utoff = i32::MIN, trailing byte); the file must be rejected with an error, without panic and within the heap bound; every case is one mutation away from an accepted file (non-trivial)"
     }
     fn strategy(&self) -> Option<BoxedStrategy<MutCase>> {
-        Some((prop_oneof![5 => zone_file(12), 1 => zone_file(200)], 0u8..21, any::<u32>(), any::<u32>()).prop_map(|(file, kind, a, b)| MutCase { file, kind, a, b }).boxed())
+        Some((prop_oneof![5 => zone_file(12), 1 => zone_file(200)], 0u8..23, any::<u32>(), any::<u32>()).prop_map(|(file, kind, a, b)| MutCase { file, kind, a, b }).boxed())
     }
     fn check(&self, c: &MutCase, obs: &mut Obs) -> Result<(), String> {
         let name = MUT_NAMES[c.kind as usize];
